@@ -151,7 +151,7 @@ def _region_signature(body, eb, entry_block):
     return region, sig
 
 
-def check_arms(facts, chk):
+def check_arms(facts, chk, k_arms=True):
     main = facts.fn('main')
     eb = ExprBuilder(main)
     loads = []
@@ -225,7 +225,9 @@ def check_arms(facts, chk):
         else:
             chk.ok('C09.arms', key + ':fallthrough', bt.span, 'both-fail edge diverges')
 
-    # Build / Cov: dispatch on k
+    # Build / Cov: dispatch on k (not part of C19, which only needs the load arms)
+    if not k_arms:
+        return
     for fam, u64c, u128c in (('Build', 'merge_ska_dict::build_and_merge', None), ('Cov', 'coverage::CoverageHistogram::new', None)):
         def go2(fam=fam, u64c=u64c):
             cs = [(bb, t) for bb, t in main.calls() if (t.callee.name or '') == u64c]
@@ -485,6 +487,12 @@ def run(facts, chk, tier, only=None):
     from . import cli_more
     chk.guard('C09.cli', 'C09.cli:run8', lambda: cli_more.check_lo_arm(facts, chk, 'C09.cli', tier))
     chk.guard('C09.cli', 'C09.cli:run9', lambda: cli_more.check_cov_arm(facts, chk, 'C09.cli', tier))
+    from . import cli_more2
+    chk.guard('C09.cli', 'C09.cli:run10', lambda: cli_more2.check_build_proportion(facts, chk, 'C09.cli', tier))
+    # files can be merged in any order, including files left without split k-mers by an earlier filter / weed (the real generic_modes::merge over virtual .skf files)
+    from . import e2e2
+    chk.guard('C09.e2e', 'C09.e2e:run-empty', lambda: e2e2.check_merge_empty(facts, chk, 'C09.e2e', tier))
+    chk.guard('C09.e2e', 'C09.e2e:run-merge', lambda: e2e2.check_merge_e2e(facts, chk, 'C09.e2e', 'quick'))
     chk.guard('C09.cli', 'C09.cli:run1', lambda: cli_e2e.check_map(facts, chk, 'C09.cli', tier, 'Aln'))
     chk.guard('C09.cli', 'C09.cli:run2', lambda: cli_e2e.check_weed(facts, chk, 'C09.cli', tier))
     chk.guard('C09.cli', 'C09.cli:run3', lambda: cli_e2e.check_merge_delete(facts, chk, 'C09.cli', tier, 'delete'))
